@@ -310,7 +310,7 @@ func c09Check(in c09Input) (string, string, string, *gen.Rendered) {
 	if in.Inj.Grammar && derivable {
 		return "", "", fmt.Sprintf("injector %s produced a document the grammar derives:\n%q", in.Inj.Kind, r.Text), r
 	}
-	if !in.Inj.Grammar && !g4.DerivableStrict(g, r.Text) {
+	if !in.Inj.Grammar && !g4.DerivableLenient(g, r.Text) {
 		return "", "", fmt.Sprintf("listener-level injection %s produced an ungrammatical document:\n%q", in.Inj.Kind, r.Text), r
 	}
 	var err error
